@@ -123,6 +123,8 @@ def check(run):
     C06.ob_s2n_table(run, "O1.7a")
     C06.ob_safe_to_skip(run, "O1.7b")
     C06.ob_s2n_events(run, "O1.7c")
+    C06.ob_parent_certified(run, "O1.7d")
+    C06.ob_registry(run, "O1.7e")
     # "all finalized blocks lie on one chain": which parents may be built on (parent-ready), and how finality propagates to ancestors
     C07.check(run, prefix="O1.8")
     C08.ob_no_downgrade(run, "O1.9a")
